@@ -165,6 +165,20 @@ class ObjectDomain(EffectDomain):
         elif st.has(fr.local(chain[0])):
             base = st.get(fr.local(chain[0]))
         elif fr.instance is None and fr.selfname and chain[0] == fr.selfname:
+            held = st.get(fr.self_key + "." + chain[1], None) if len(chain) >= 3 else None
+            if is_inst(held):
+                # self.a.b...: an attribute of the analysed object holds an instance made during the run
+                cur = [val(held, st)]
+                for attr in chain[2:]:
+                    nxt = []
+                    for r in cur:
+                        if r.kind == "exc":
+                            nxt.append(r)
+                            continue
+                        got = self.attr_of_value(interp, r.value, attr, r.state, fr)
+                        nxt.extend(got if got is not None else [val(TOP, r.state)])
+                    cur = nxt
+                return cur
             return self._root_attr(interp, chain, st, fr)
         else:
             return None
@@ -1036,11 +1050,16 @@ class ObjectDomain(EffectDomain):
                         elif "staticmethod" in decos:
                             argvals = self._bind(mf, pos, kw, False)
                             out.extend([exc(("exc", "TypeError"), s2)] if argvals is None else interp.inline(mf, argvals, s2, fr, receiver=owner_v, is_method=False))
-                        elif pos and is_inst(pos[0]):
-                            got = self.call_method(interp, pos[0], f_.attr, pos[1:], kw, s2, fr)
-                            out.extend(got if got is not None else [val(TOP, s2)])
-                        elif pos and pos[0] == ("self",):
-                            out.extend(self.apply_method(interp, f_.attr, pos[1:], kw, s2, fr))
+                        elif pos and (is_inst(pos[0]) or pos[0] == ("self",)):
+                            # Class.method(obj, ...): that class's own method (no virtual dispatch) runs on obj
+                            argvals = self._bind(mf, pos[1:], kw, True)
+                            if argvals is None:
+                                out.append(exc(("exc", "TypeError"), s2))
+                            elif is_inst(pos[0]):
+                                out.extend(self._wrap_generator(mf, interp.inline(mf, argvals, s2, fr, receiver=pos[0][2], self_value=pos[0]), fr))
+                            else:
+                                root = getattr(self, "root_class", None) or fr.receiver
+                                out.extend(self._wrap_generator(mf, interp.inline(mf, argvals, s2, fr, receiver=root), fr))
                         elif pos and isinstance(pos[0], tuple) and pos[0][:1] in (("wobj",), ("new",)):
                             # Class.method(something that merely quacks like an instance): the method body runs with that object as self
                             argvals = self._bind(mf, pos, kw, False)
